@@ -82,6 +82,12 @@ type Script struct {
 	// StartFails: the storage extension refuses to serve the exporter, so its Start fails (persistent queue only).
 	// The Shutdown that follows a failed Start (the service calls it) must return normally and leave nothing running.
 	StartFails bool `json:"start_fails,omitempty"`
+	// HoldFirstMS > 0: the first export call that starts stays in flight this long before it returns its outcome
+	// (a slow backend; every other call takes SlowUS).
+	HoldFirstMS int `json:"hold_first_ms,omitempty"`
+	// skipLeak: the case runs next to other cases in the same process, the goroutine census is taken once for
+	// the whole group (not part of the script).
+	skipLeak bool
 }
 
 var errStorageClose = errors.New("injected storage close failure")
@@ -128,6 +134,7 @@ type world struct {
 	note             chan struct{}
 	shutdownReturned atomic.Bool
 	lateStart        atomic.Int64
+	holdUsed         atomic.Bool
 }
 
 func (w *world) push(_ context.Context, v any) error {
@@ -167,7 +174,9 @@ func (w *world) push(_ context.Context, v any) error {
 	case w.note <- struct{}{}:
 	default:
 	}
-	if w.s.SlowUS > 0 {
+	if w.s.HoldFirstMS > 0 && w.holdUsed.CompareAndSwap(false, true) {
+		time.Sleep(time.Duration(w.s.HoldFirstMS) * time.Millisecond)
+	} else if w.s.SlowUS > 0 {
 		time.Sleep(time.Duration(w.s.SlowUS) * time.Microsecond)
 	}
 	c.endSeq = w.seq.Add(1)
@@ -442,6 +451,7 @@ func runInner(s *Script) (bool, *vt.Finding) {
 		time.Sleep(time.Duration(s.DelayUS) * time.Microsecond)
 	}
 	pendingAtShutdown := w.nCalls()
+	inflightAtRequest := w.inflight.Load()
 	// racers
 	var rwg sync.WaitGroup
 	for i := 0; i < s.Racers; i++ {
@@ -487,7 +497,10 @@ func runInner(s *Script) (bool, *vt.Finding) {
 	}
 	// no export call may begin after shutdown has returned; no helper goroutine may be left
 	time.Sleep(3 * time.Millisecond)
-	leakErr := goleak.Find(ignore, goleak.IgnoreAnyFunction("go.opentelemetry.io/collector/verifharness/vt.WithWatchdog.func1"))
+	var leakErr error
+	if !s.skipLeak {
+		leakErr = goleak.Find(ignore, goleak.IgnoreAnyFunction("go.opentelemetry.io/collector/verifharness/vt.WithWatchdog.func1"))
+	}
 	if !allStarted {
 		cS.Class("no-queue:callers-not-all-started")
 		w.lateStart.Store(0)
@@ -579,6 +592,25 @@ func runInner(s *Script) (bool, *vt.Finding) {
 		}
 	}
 	// classes
+	if s.HoldFirstMS > 0 {
+		switch {
+		case s.HoldFirstMS > 1000:
+			cS.Class("hold-first-call:>1s")
+		case s.HoldFirstMS >= 100:
+			cS.Class("hold-first-call:100ms-1s")
+		default:
+			cS.Class("hold-first-call:<100ms")
+		}
+		if inflightAtRequest > 0 {
+			cS.Class("held-call-in-flight-when-shutdown-requested")
+			if len(calls) > pendingAtShutdown {
+				cS.Class("held-call-in-flight-and-later-calls-during-drain")
+			}
+		}
+		for _, c := range calls[:min(1, len(calls))] {
+			cS.Class("outcome-after-hold:" + c.outcome)
+		}
+	}
 	if s.ShutdownDeadlineUS > 0 {
 		cS.Class("shutdown-with-deadline")
 	}
@@ -777,4 +809,139 @@ func TestSlowCompletionWrites(t *testing.T) {
 		return run(s)
 	}
 	vt.Run(t, cSC, vt.N(400, 20000), genSlowCompletion, runSC)
+}
+
+// genSlowDrain: in-memory queue with batching (min_size > 0, flush timeout of an hour, so only size-triggered flushes
+// and the final flush of Shutdown), a first request that reaches min_size and is flushed at once, whose export call
+// (the single batcher worker) is held for a drawn time - mostly longer than a second -, then small requests that
+// together stay below min_size in the partial batch, then Shutdown (no deadline) while the first call is still held.
+// After the hold the call returns a drawn outcome (success, permanent failure, transient failure with retry).
+func genSlowDrain(t *rapid.T) Script {
+	var s Script
+	c := &s.Cfg
+	c.Signal = rapid.SampledFrom([]string{sig.Logs, sig.Traces}).Draw(t, "signal")
+	c.Consumers = rapid.IntRange(1, 3).Draw(t, "consumers")
+	c.QueueSize = 1000
+	c.Batch = true
+	c.Sizer = "items"
+	c.FlushMS = 3600000
+	m := rapid.IntRange(2, 10).Draw(t, "min")
+	big := m + rapid.IntRange(0, 2).Draw(t, "big_extra")
+	c.MinSize = m
+	if rapid.IntRange(0, 2).Draw(t, "hasmax") == 0 {
+		c.MaxSize = big
+	}
+	if rapid.IntRange(0, 3).Draw(t, "bytes_sizer") == 0 {
+		// one item is about 30 bytes: big*30 >= min, one item < min
+		c.Sizer = "bytes"
+		c.MinSize = m * 25
+		c.MaxSize = 0
+		big += 2
+	}
+	s.Requests = []int{big}
+	if rapid.IntRange(0, 4).Draw(t, "second_big") == 0 {
+		s.Requests = append(s.Requests, big)
+	}
+	// small requests: together below min_size (items) / a single item (bytes)
+	left := m - 1
+	if c.Sizer == "bytes" {
+		left = 1
+	}
+	for i, k := 0, rapid.IntRange(1, 2).Draw(t, "nsmall"); i < k && left > 0; i++ {
+		n := rapid.IntRange(1, left).Draw(t, "small")
+		s.Requests = append(s.Requests, n)
+		left -= n
+	}
+	s.HoldFirstMS = rapid.SampledFrom([]int{20, 400, 1200, 1400, 1600, 1800, 2000, 2200}).Draw(t, "hold_ms")
+	switch rapid.SampledFrom([]string{"ok", "ok", "perm", "transient"}).Draw(t, "outcome") {
+	case "perm":
+		s.Perm = []int64{int64(rapid.IntRange(1, big).Draw(t, "perm_id"))}
+	case "transient":
+		s.Transient = []int64{int64(rapid.IntRange(1, big).Draw(t, "trans_id"))}
+		s.TransN = 1
+		c.Retry = rapid.Bool().Draw(t, "retry")
+		c.RetryInitMS = 1
+	}
+	s.SlowUS = rapid.SampledFrom([]int{0, 200}).Draw(t, "slow")
+	s.WaitPush = 1
+	s.DelayUS = rapid.SampledFrom([]int{0, 300, 2000, 20000}).Draw(t, "delay")
+	return s
+}
+
+var cSD = vt.New("C03", "slow-drain")
+
+// TestSlowDrain: a handful of slow-backend scripts per process, all running at the same time (each with its own
+// exporter), so that the added wall time is about one hold.  Every script is drawn by rapid; the property only launches
+// the case, verdicts are collected when all of them are done.  Same ledger oracle as shutdown-drain; the goroutine
+// census is taken once for the whole group.  Nothing in the oracle depends on how long the hold really lasted.
+func TestSlowDrain(t *testing.T) {
+	save := cS
+	cS = cSD
+	defer func() { cS = save }()
+	if vt.ReplayPath() != "" {
+		cSD.ReplayRepeat = 2
+		vt.Run(t, cSD, 1, genSlowDrain, run)
+		return
+	}
+	type res struct {
+		s    Script
+		nt   bool
+		key  string
+		f    *vt.Finding
+		done chan struct{}
+	}
+	var all []*res
+	ignore := goleak.IgnoreCurrent()
+	cSD.Check(t, vt.N(16, 96), func(rt *rapid.T) {
+		r := &res{s: genSlowDrain(rt), done: make(chan struct{})}
+		all = append(all, r)
+		go func() {
+			defer close(r.done)
+			s := r.s
+			s.skipLeak = true
+			b, _ := json.Marshal(s)
+			h := sha256.Sum256(b)
+			r.key = string(h[:])
+			ok, stacks := vt.WithWatchdog(60*time.Second, func() { r.nt, r.f = runInner(&s) })
+			if !ok {
+				r.nt, r.f = true, vt.Failf("hang/shutdown", "no return after 60s\n%s", trim(stacks))
+			}
+		}()
+	})
+	defer cSD.Flush()
+	var bad []string
+	for _, r := range all {
+		<-r.done
+		cSD.Eval(r.nt, r.key)
+		if r.nt {
+			cSD.Sample(r.s)
+		}
+		if r.f != nil && !cSD.Soft(r.f, r.s) {
+			cSD.Violation(r.f, r.s)
+			bad = append(bad, r.f.Error())
+		}
+	}
+	if len(bad) == 0 {
+		time.Sleep(3 * time.Millisecond)
+		if leakErr := goleak.Find(ignore, goleak.IgnoreAnyFunction("go.opentelemetry.io/collector/verifharness/vt.WithWatchdog.func1")); leakErr != nil {
+			if msg := leakErr.Error(); strings.Contains(msg, "exporterhelper") || strings.Contains(msg, "queuebatch") {
+				// find the case that leaves the goroutine behind: one at a time, each with its own census
+				for _, r := range all {
+					if _, _, f := run(r.s); f != nil && !cSD.Soft(f, r.s) {
+						cSD.Violation(f, r.s)
+						bad = append(bad, f.Error())
+						break
+					}
+				}
+				if len(bad) == 0 && len(all) > 0 {
+					f := vt.Failf("goroutine-leak", "helper goroutines still running after every Shutdown of the group returned (not reproduced one case at a time): %s", trimLeak(msg))
+					cSD.Violation(f, all[0].s)
+					bad = append(bad, f.Error())
+				}
+			}
+		}
+	}
+	if len(bad) > 0 {
+		t.Fatalf("slow-drain: %s", strings.Join(bad, "\n"))
+	}
 }
